@@ -64,6 +64,16 @@ static void fresh(void)
 
 #define NUM(i, v) (h_ntok > (i) && h_int(h_tok[i], &(v)))
 
+/* progress callback of every search: returns FALSE at every prog_k-th invocation (op `progress <k>`, 0 = never; with 0 the
+   search behaves as with a NULL callback) */
+static long long prog_k, prog_n;
+static int on_progress(vbi_page *pg)
+{
+	(void) pg;
+	++prog_n;
+	return !(prog_k > 0 && prog_n % prog_k == 0);
+}
+
 /* "pk,pk,..." -> one vbi_decode call. returns 0 on parse error */
 static int feed(const char *spec)
 {
@@ -170,7 +180,7 @@ int main(int argc, char **argv)
 	fresh();
 	while ((r = h_next())) {
 		long long a, b, c, d;
-		if (r == 2) { fresh(); continue; }
+		if (r == 2) { fresh(); prog_k = prog_n = 0; continue; }
 		if (H_IS(0, "put") && h_ntok == 6) {
 			if (!NUM(1, a) || !NUM(2, b) || !NUM(3, c)) { printf("rej parse\n"); }
 			else if (!feed(h_tok[5])) printf("rej parse\n");
@@ -205,7 +215,7 @@ int main(int argc, char **argv)
 				for (i = 0; i < len / 2; ++i) pat[i] = (uint16_t)(p[2 * i] * 256 + p[2 * i + 1]);
 				pat[len / 2] = 0;
 				if (srch) vbi_search_delete(srch);
-				srch = vbi_search_new(dec, (vbi_pgno) a, (vbi_subno) b, pat, c != 0, d != 0, NULL);
+				srch = vbi_search_new(dec, (vbi_pgno) a, (vbi_subno) b, pat, c != 0, d != 0, on_progress);
 				srch_regex = (d != 0) && 0 != strcmp(h_tok[6], "ure");   /* mode `ure`: the model driver runs its ure.c model */
 				free(pat); free(p);
 			}
@@ -243,6 +253,9 @@ int main(int argc, char **argv)
 					printf("\n");
 				}
 			}
+		} else if (H_IS(0, "progress") && h_ntok == 2) {
+			if (!NUM(1, a) || a < 0 || a > 1000) printf("rej parse\n");
+			else { prog_k = a; prog_n = 0; printf("ok\n"); }
 		} else if (H_IS(0, "endsearch") && h_ntok == 1) {
 			if (srch) { vbi_search_delete(srch); srch = NULL; }
 			printf("ok\n");
